@@ -158,6 +158,7 @@ pub fn scenarios(thorough: bool) -> Vec<Scenario> {
     }).collect();
     v.append(&mut rev);
     v.extend(cross_scenarios(thorough));
+    v.extend(combo_scenarios(thorough));
     v
 }
 
